@@ -652,15 +652,35 @@ def handler(payload):
             out["export3"] = g(refresh)
             out["signed"] = ["ok", [H(m) for m in sp.messages]] if sp else ["ok", []]
             if c.get("new_used") is not None:
+                # in-contract change: the used root index is replaced TOGETHER with the signer of that root, optionally with new ISK
+                # user data / constraints, then calculate() and an explicit create_isk_signature(force=True)
                 def chg():
-                    cb.root_key_record.used_root_cert = c["new_used"]
+                    nu = c["new_used"]
+                    nud = bytes.fromhex(c["new_user_data"]) if "new_user_data" in c else ud
+                    cb.root_key_record.used_root_cert = nu
+                    nsp = None
+                    if cb.isk_certificate:
+                        cs = (priv[c["keys"][nu][0]].public_key().curve.key_size + 7) // 8
+                        nsp = HashSigner(2 * cs) if c.get("signer", "hash") == "hash" else KeySigner(c["keys"][nu][0])
+                        cb.isk_certificate.signature_provider = nsp
+                        cb.isk_certificate.user_data = nud
+                        if "new_constraints" in c:
+                            cb.isk_certificate.constraints = c["new_constraints"]
                     cb.calculate()
-                    plain = H(cb.export())                         # what a user gets after calculate() + export()
                     if cb.isk_certificate:
                         cb.isk_certificate.create_isk_signature(cb.root_key_record.export(), force=True)
-                    forced = H(cb.export())                        # after the explicit re-sign step
-                    f, _ = build(c["new_used"], ud, "hash")
-                    return {"export": plain, "export_resigned": forced, "fresh_export": H(f.export()), "rkth": H(cb.rkth), "fresh_rkth": H(f.rkth)}
+                    first = H(cb.export())
+                    second = H(cb.export())
+                    saved = dict(c)
+                    try:
+                        if "new_constraints" in c:
+                            c["constraints"] = c["new_constraints"]
+                        f, _ = build(nu, nud, c.get("signer", "hash"))
+                    finally:
+                        c.clear()
+                        c.update(saved)
+                    return {"export": first, "export_again": second, "fresh_export": H(f.export()), "rkth": H(cb.rkth), "fresh_rkth": H(f.rkth),
+                            "signed": [H(m) for m in nsp.messages] if nsp else []}
                 out["changed"] = g(chg, conv=lambda v: v)
             return out
         raise ValueError(kind)
